@@ -834,11 +834,13 @@ def Provides(*interfaces):  # pylint:disable=function-redefined
     if isinstance(spec, ProvidesClass):
         # Interfaces the class implemented when the cached declaration
         # was created were left out of it. If the class has stopped
-        # implementing one of them since, the cached object is stale.
-        for iface in interfaces[1:]:
-            if not spec.isOrExtends(iface):
-                spec = None
-                break
+        # implementing one of them since, the cached object is stale:
+        # it must list what a new declaration would list now (an interface
+        # that another listed interface extends is still to be listed).
+        fresh = ProvidesClass._add_interfaces_to_cls(
+            interfaces[1:], interfaces[0])
+        if spec.__bases__ != fresh:
+            spec = None
     if spec is None:
         spec = ProvidesClass(*interfaces)
         InstanceDeclarations[interfaces] = spec
